@@ -425,8 +425,8 @@ def schedule_engine(rep, tier):
         bound = 1
         if nthreads == 2 and hname.startswith(("T3", "T4", "T5")):
             bound = 2
-        if tier == "thorough" and nthreads == 2 and hname.startswith(("T1", "T2", "I3", "I4", "I5")):
-            bound = 2  # thorough: instruction-level harnesses to two preemptions as well (~0.5-0.7 M schedules each)
+        if tier == "thorough" and nthreads == 2 and hname.startswith(("T1", "T2", "I4")):
+            bound = 2  # thorough: the instruction-level serialize||serialize harness to two preemptions as well (~0.7 M schedules)
         _BOUND[(tier, hname)] = bound
         stats = {"schedules": 0, "steps": 0, "paths": set(), "final_states": set(), "bound": bound, "threads": nthreads,
                  "by_preemptions": {}}
